@@ -171,7 +171,12 @@ func corrPaths(seed uint64, n int, tier string, out string, replay string) {
 }
 
 func pathsArchiveCase(m *Model, rep *Report, r *Rng, tmp, full string, seed uint64, idx int) {
-	data, err := mkTarGz([]tarEntry{{Name: full, Body: []byte("x")}, {Name: "c/Chart.yaml", Body: []byte("apiVersion: v2\nname: c\nversion: 0.1.0\n")}})
+	// the chart's own name (the directory Expand unpacks into) is input as well: harmless entry names, hostile Chart.yaml
+	chartName := "c"
+	if r.Chance(25) {
+		chartName = Pick(r, []string{"..", ".", "../x", "a/../../x", "/abs", "outside", "c/..", "..\\x", "x"})
+	}
+	data, err := mkTarGz([]tarEntry{{Name: full, Body: []byte("x")}, {Name: "c/Chart.yaml", Body: []byte("apiVersion: v2\nname: \"" + strings.ReplaceAll(chartName, "\\", "\\\\") + "\"\nversion: 0.1.0\n")}, {Name: "c/values.yaml", Body: []byte("a: 1\n")}})
 	if err != nil {
 		rep.H("tar-writer-rejects")
 		return
@@ -224,9 +229,12 @@ func pathsArchiveCase(m *Model, rep *Report, r *Rng, tmp, full string, seed uint
 	}
 	after := snapshot(root)
 	if ch := outsideChanges(before, after, "dest"); len(ch) > 0 {
-		rep.Issue(Issue{Kind: "monitor", Fingerprint: "C16:escape:Expand", What: "chartutil.Expand changed something outside its destination: " + strings.Join(ch, ","), Case: map[string]any{"name": full, "before": before, "after": after}, Seed: seed, Index: idx})
+		rep.Issue(Issue{Kind: "monitor", Fingerprint: "C16:escape:Expand", What: "chartutil.Expand changed something outside its destination: " + strings.Join(ch, ","), Case: map[string]any{"name": full, "chartName": chartName, "before": before, "after": after}, Seed: seed, Index: idx})
 	}
 	rep.H("expand")
+	if chartName != "c" {
+		rep.H("expand:odd-chart-name")
+	}
 	rep.Traces++
 	os.RemoveAll(root)
 }
